@@ -7,7 +7,7 @@ for f in sorted(glob.glob('/verif/seeded/*/meta.json')):
     rows.append(m)
 out = ["# Which checks catch which deliberately broken versions of wharf", "",
        "Each entry is a change to itchio/wharf that compiles and passes the pinned test suite but breaks a property.",
-       "`wave 1/2`: written by independent sub-agents that saw only the property text and their own scratch worktree;",
+       "ids ending in a/b/c/d/e + A/B: waves 1-5, written by independent sub-agents that saw only the property text and their own scratch worktree;",
        "`revert-*`: the unrepaired behaviour of one `fix:` commit. Every change was confirmed in a scratch worktree",
        "(suite passes with it, demonstration fails with it and passes without it) before the checks were run against a",
        "scratch copy of /repo with the change applied (`tools_mutant.sh`, VERIF_REPO override; /repo itself untouched).", "",
@@ -22,5 +22,12 @@ for m in rows:
                "; ".join(sorted(set(short(l) + (" [" + m.get('tier_note', 'quick') + "]") for l in caught))) or "—",
                "; ".join(short(l) for l in missed) or "—",
                (m.get('strengthening', '') or '—').replace('|', '/')[:400]))
+n_agent = sum(1 for m in rows if not m['id'].startswith('revert'))
+n_neutral = sum(1 for m in rows if m.get('neutralised_by_fix'))
+n_caught = sum(1 for m in rows if not m.get('neutralised_by_fix') and any(l.startswith('CAUGHT') for l in m.get('checks_run', []) + m.get('checks_after_strengthening', [])))
+n_first = sum(1 for m in rows if not m.get('neutralised_by_fix') and any(l.startswith('CAUGHT') for l in m.get('checks_run', [])))
+out += ["", "Totals: %d entries (%d by sub-agents, %d reverts); %d neutralised by a later fix (their own demonstration passes on HEAD + change) and not counted; of the other %d, %d were caught by the checks as they stood when the change arrived and %d after strengthening; not caught: %s." % (
+    len(rows), n_agent, len(rows) - n_agent, n_neutral, len(rows) - n_neutral, n_first, n_caught,
+    ", ".join(m['id'] for m in rows if not m.get('neutralised_by_fix') and not any(l.startswith('CAUGHT') for l in m.get('checks_run', []) + m.get('checks_after_strengthening', []))) or "none")]
 open('/verif/seeded/RESULTS.md', 'w').write("\n".join(out) + "\n")
 print(len(rows), "entries")
